@@ -44,7 +44,9 @@ class CrossWorld:
         return xr.DataArray((self.X0 + self.shx) * scale, dims=("time", "x"), coords=dict(time=self.t, x=np.arange(self.px) * 1.0), name="X")
 
     def Y(self, scale=1.0):
-        return xr.DataArray((self.Y0 + self.shy) * scale, dims=("time", "y"), coords=dict(time=self.t, y=np.arange(self.py) * 2.0), name="Y")
+        tl = self.cfg.get("tlab", "same")
+        t = self.t + 5 if tl == "shifted" else (self.t[::-1].copy() if tl == "reversed" else self.t)
+        return xr.DataArray((self.Y0 + self.shy) * scale, dims=("time", "y"), coords=dict(time=t, y=np.arange(self.py) * 2.0), name="Y")
 
 
 def model_class(fam, cplx):
